@@ -11,12 +11,14 @@ from common import Coverage, Driver, coq_eval, rng, violation
 VKINDS = ["ok", "wrongid", "badtag", "badsig", "auth", "invalid", "garbage", "peerclose", "peerreset", "http4xx"]
 TEN_S = 40960
 SIXTY_S = 245760
+THIRTY_S = 122880          # request timeout of InsecureHomeKitProtocol._send_lines
+NEVER = 10 * SIXTY_S       # a vdelay no request survives
 
 
 # ------------------------------------------------------------------ scenario <-> model line
 def model_line(sc):
     dials = ",".join("r" if d[0] == "refused" else "h" if d[0] == "hang" else f"c{d[1]}" for d in sc.get("dials", [])) or "-"
-    ver = ",".join(f"{v[0]}:{v[1] if len(v) > 1 else 0}" for v in sc.get("verifies", [])) or "-"
+    ver = ",".join(f"{v[0]}:{v[1] if len(v) > 1 else 0}:{v[3] if len(v) > 3 else 0}" for v in sc.get("verifies", [])) or "-"
     cs = []
     for t, k, a in expand_controls(sc):
         if k == "zeroconf":
@@ -72,7 +74,8 @@ def coq_scenario(sc):
                             for d in sc.get("dials", [])) + "]"
     vk = dict(ok="VOk", wrongid="VWrongId", badtag="VBadTag", badsig="VBadSig", auth="VAuth", invalid="VInvalid",
               garbage="VGarbage", peerclose="VPeerClose", peerreset="VPeerReset", http4xx="VHttp4xx")
-    ver = "[" + "; ".join(f"({vk[v[0]]}, {v[1] if len(v) > 1 else 0}%N)" for v in sc.get("verifies", [])) + "]"
+    ver = "[" + "; ".join(f"({vk[v[0]]}, {v[1] if len(v) > 1 else 0}%N, {v[3] if len(v) > 3 else 0}%N)"
+                          for v in sc.get("verifies", [])) + "]"
     cs = []
     for t, k, a in expand_controls(sc):
         term = dict(ensure=f"Ensure {a}", cancel=f"Cancel {a}", soon="Soon", drop=f"Drop {a}", dropreset=f"DropReset {a}",
@@ -213,6 +216,45 @@ def gen_same_tick_pairs():
                                     controls=[[1, "ensure", 1], [t, "pair", [k, a[0], a[1], b[0], b[1]]],
                                               [t + 30000, "ensure", 8], [t + 50000, "ensure", 9], [t + 70000, "close", 0]],
                                     end=t + 90000, tag="pairs/" + name, oracle_only=True))
+    return out
+
+
+INFLIGHT_DELAYS = [("small", 3000), ("9.9s", 40550), ("10.1s", 41370), ("29.9s", 122470), ("never", NEVER)]
+
+
+def gen_inflight(full=True):
+    """A control event arriving while the pair-verify request is IN FLIGHT (the accessory takes vdelay ticks before
+    its decisive reaction, or never reacts and the 30 s request timeout cuts in), for every verify outcome kind x
+    five delays x every control kind at three offsets inside the window (incl. two events in one tick: pair /
+    close_then / shutdown_then), and one run without any event in the window; followed by re-use of the pairing.
+    Two hosts, so that a wrong-id answer moves on to the other address (whose verify is again slow)."""
+    out = []
+    kinds = VKINDS if full else ["ok", "wrongid", "auth", "badsig", "peerclose"]
+    for kind in kinds:
+        for dname, vd in INFLIGHT_DELAYS:
+            win = min(vd, THIRTY_S)
+            first = [kind, 700, 0, vd]
+            second = ["ok", 0, 0, 2000] if kind != "ok" else ["badsig", 0, 0, 2000]
+            base = dict(hosts=2, dials=[["connect", 0]] + [["connect", 1]] * 7, verifies=[first, second, ["ok", 0]])
+            req = 1                        # the request goes out in the tick of the first ensure
+            ctrls = [("ensure", 2), ("cancel", 1), ("zeroconf", [0, 1]), ("zeroconf", [1]), ("soon", 0), ("drop", 1),
+                     ("dropreset", 1), ("close", 0), ("shutdown", 0),
+                     ("close_then", [1, "ensure", 7]), ("shutdown_then", [2, "zeroconf", [0]]),
+                     ("pair", [1, "drop", 1, "close", 0]), ("pair", [0, "dropreset", 1, "ensure", 7]),
+                     ("pair", [2, "close", 0, "drop", 1]), ("pair", [1, "ensure", 7, "dropreset", 1])]
+            offs = sorted({req + 2, req + (win // 2 | 1) + 1, req + win - 2})
+            after = req + win + 2 * SIXTY_S
+            reuse = [[after + 1, "ensure", 8], [after + 20001, "drop", 2], [after + 20003, "drop", 3], [after + 90001, "ensure", 9]]
+            for subs in ((False, True) if kind == "ok" else (False,)):
+                out.append(dict(base, subs=subs, controls=[[req, "ensure", 1]] + reuse, end=after + 200001,
+                                tag=f"inflight/none/{dname}"))
+                for ck, ca in ctrls:
+                    for t in offs:
+                        sc = dict(base, subs=subs, controls=[[req, "ensure", 1], [t, ck, ca]] + reuse, end=after + 200001,
+                                  tag=f"inflight/{ck}/{dname}")
+                        if ck in ("pair", "close_then", "shutdown_then"):
+                            sc["oracle_only"] = ck == "pair"
+                        out.append(sc)
     return out
 
 
